@@ -1,5 +1,5 @@
 import ast, z3
-from vf2.spec import *
+from vf.spec import *
 Name = Elem("Name"); Gt = Elem("Graph")
 JD = ListT(INT, tagged=True); Key = PairT(JD, JD); Edge = PairT(INT, INT); LEdge = ListT(Edge); LName = ListT(Name); LJD = ListT(JD)
 ETOP = z3.Function("etop", Gt.sort(), Edge.sort(), Name.sort())
